@@ -6,6 +6,7 @@ inputs to this program and to the implementation and compares the replies.
 import PysersicModel
 import PysersicModel.Driver.EarlyStop
 import PysersicModel.Driver.SkyEstimate
+import PysersicModel.Driver.Validate
 
 open Pysersic
 
@@ -18,6 +19,10 @@ def dispatch (line : String) : String :=
     | "ping" => "pong"
     | "es" => Driver.earlyStop args
     | "sky" => Driver.skyEstimate args
+    | "ci" => Driver.checkInput args
+    | "ri" => Driver.rendererInitCmd args
+    | "pm" => Driver.parseMaskCmd args
+    | "pt" => Driver.priorTypeCmd args
     | _ => "bad-op " ++ cmd
 
 partial def loop (h : IO.FS.Stream) (out : IO.FS.Stream) : IO Unit := do
